@@ -491,6 +491,11 @@ pub open spec fn repo_method(d: instruction::RepositionLiquidityV2) -> (u128, u6
         assert(if is_token_a_transfer_from_owner { moved(accounts@[10].k, accounts@[12].k, token_a_transfer_amount) } else { moved(accounts@[12].k, accounts@[10].k, token_a_transfer_amount) }); //# C06 C01 C15
         assert(if is_token_b_transfer_from_owner { moved(accounts@[11].k, accounts@[13].k, token_b_transfer_amount) } else { moved(accounts@[13].k, accounts@[11].k, token_b_transfer_amount) }); //# C06 C01 C15
         assert(position.v.view().tick_lower_index == d.new_tick_lower_index && position.v.view().tick_upper_index == d.new_tick_upper_index); //# C18
+        // each transfer uses the mint, token program and the deposit / withdrawal hook accounts of ITS token and direction
+        assert(if is_token_a_transfer_from_owner { pino_moved_with(accounts@[10].k, accounts@[12].k, accounts@[8].k, accounts@[1].k, pino_hook_tag(remaining_accounts.transfer_hook_deposit_a)) }
+               else { pino_moved_with(accounts@[12].k, accounts@[10].k, accounts@[8].k, accounts@[1].k, pino_hook_tag(remaining_accounts.transfer_hook_withdrawal_a)) }); //# C16 C15
+        assert(if is_token_b_transfer_from_owner { pino_moved_with(accounts@[11].k, accounts@[13].k, accounts@[9].k, accounts@[2].k, pino_hook_tag(remaining_accounts.transfer_hook_deposit_b)) }
+               else { pino_moved_with(accounts@[13].k, accounts@[11].k, accounts@[9].k, accounts@[2].k, pino_hook_tag(remaining_accounts.transfer_hook_withdrawal_b)) }); //# C16 C15
     }
 //@ inject at /^\{/
     let ghost old_data = data;
